@@ -311,6 +311,11 @@ def check_config(c):
     ms = range(1, M + 2) if M <= c.get('m_all', 400) else sorted(_boundaries(base, cc, N))
     for m in ms:
         _judge(res, cc, base, dict(m=m, nswp=N), seed, False)
+    # fractional budgets around every boundary (the library documents ints and its own tests pass floats): a budget is never exceeded,
+    # so 33.6 allows 33 evaluations, not 34
+    for m0 in sorted(_boundaries(base, cc, N)):
+        for frac in (0.6, 0.5):
+            _judge(res, cc, base, dict(m=m0 - 1 + frac, nswp=N), seed, False)
     # budget only (no nswp): horizon from the recording (m < M guarantees a stop)
     for m in list(ms)[:: max(1, len(list(ms)) // 8)]:
         if m < M:
@@ -511,7 +516,78 @@ def check_warm(c):
     return res
 
 
-CHECKERS = {'config': check_config, 'args': check_args, 'warm': check_warm}
+class _Fn:
+    """Objective given by a formula (no dense table): for tensors with more than 2^63 elements and for requests of thousands of rows."""
+
+    def __init__(self, shape, none_at=None):
+        self.shape, self.none_at, self.calls, self.batches, self.answered = shape, none_at, 0, [], []
+
+    def __call__(self, I):
+        self.calls += 1
+        J = np.array(I, copy=True)
+        self.batches.append(J)
+        if self.none_at is not None and self.calls == self.none_at:
+            return None
+        self.answered.append(J)
+        return np.cos(J @ (0.1 + 0.01 * np.arange(len(self.shape)))) + 0.1 * J[:, 0]
+
+
+def check_huge(c):
+    """Accounting and domain on tensors too large for a table (a product of mode sizes beyond 2^63) and on requests of several thousand
+    rows, with the objective giving up at every call."""
+    res = Res()
+    shape, r0 = c['shape'], c['r0']
+    d = len(shape)
+    Y0 = [np.cos(0.3 * np.arange(a * n * b) + k).reshape(a, n, b) for k, (a, n, b) in enumerate(zip([1] + [r0] * (d - 1), shape, [r0] * (d - 1) + [1]))]
+    probe = _Fn(shape)
+    with warnings.catch_warnings():
+        warnings.simplefilter('ignore')
+        teneva.cross(probe, Y0, nswp=1, dr_min=0, dr_max=0, info={}, cache=None)
+    K = {False: probe.calls}
+    T_ = {False: sum(len(b) for b in probe.batches)}
+    seen_, newc = set(), []
+    for b in probe.batches:                   # with a cache only the rows not yet stored are sent, and a batch without new rows is not sent at all
+        rows_ = [tuple(int(x) for x in row) for row in b]
+        newc.append(len([t for t in dict.fromkeys(rows_) if t not in seen_]))
+        seen_.update(rows_)
+    K[True], T_[True] = sum(1 for x in newc if x), sum(newc)
+    runs = [dict(none_at=None, m=None, cache=False), dict(none_at=None, m=None, cache=True), dict(none_at=None, m=T_[True] + 5, cache=True), dict(none_at=None, m=max(1, T_[True] // 2), cache=True),
+            dict(none_at=None, m=max(1, T_[False] // 2), cache=False)] + [dict(none_at=k, m=None, cache=ca) for ca in (False, True) for k in range(1, K[ca] + 1)]
+    for r in runs:
+        total = T_[r['cache']]
+        res.ev()
+        case = dict(c, **r)
+        f = _Fn(shape, r['none_at'])
+        cache = {} if r['cache'] else None
+        info = {}
+        try:
+            with warnings.catch_warnings():
+                warnings.simplefilter('ignore')
+                Y = teneva.cross(f, Y0, m=r['m'], nswp=1, dr_min=0, dr_max=0, info=info, cache=cache, m_cache_scale=BIG)
+        except Exception as ex:
+            res.fail('huge.raised', case, '%s: %s' % (type(ex).__name__, str(ex)[:200]), ['exception'])
+            continue
+        rows = [tuple(int(x) for x in row) for b in f.answered for row in b]
+        allrows = np.vstack(f.batches) if f.batches else np.zeros((0, d), dtype=int)
+        res.check(allrows.dtype.kind in 'iu' and np.all(allrows >= 0) and np.all(allrows < np.array(shape)), 'huge.domain', case, 'an index outside the tensor was requested')
+        res.check(info.get('m') == len(rows), 'huge.m', case, lambda: "info['m']=%r, %d indices were evaluated" % (info.get('m'), len(rows)))
+        if cache is not None:
+            res.check(set(cache.keys()) == set(rows) and len(rows) == len(set(rows)), 'huge.cache', case,
+                      lambda: 'cache holds %d entries, %d distinct indices were evaluated (%d evaluations)' % (len(cache), len(set(rows)), len(rows)))
+        if r['m'] is not None:
+            res.check(len(rows) <= r['m'], 'huge.budget', case, lambda: 'budget %r, %d evaluations' % (r['m'], len(rows)))
+            res.check(info.get('stop') == ('m' if r['m'] < total else 'nswp') and (r['m'] < total or len(rows) == total), 'huge.stop', case,
+                      lambda: 'budget %r against %d indices of one sweep: stop=%r after %d evaluations' % (r['m'], total, info.get('stop'), len(rows)))
+        elif r['none_at'] is not None:
+            res.check(info.get('stop') == 'func' and f.calls == r['none_at'], 'huge.func', case, lambda: 'None at call %d: stop=%r after %d calls' % (r['none_at'], info.get('stop'), f.calls))
+        else:
+            res.check(info.get('stop') == 'nswp' and len(rows) == total, 'huge.stop', case, lambda: 'stop=%r, %d of %d indices' % (info.get('stop'), len(rows), total))
+        res.check(ref.wellformed(Y, shape) is None and ref.finite(Y), 'huge.wellformed', case, 'result malformed')
+        res.nt((tuple(shape), r0, r['none_at'], r['m'], r['cache']))
+    return res
+
+
+CHECKERS = {'huge': check_huge, 'config': check_config, 'args': check_args, 'warm': check_warm}
 
 
 def _configs(tier, seed):
@@ -553,6 +629,8 @@ def strata(tier, seed):
           for sh in ([[2, 3], [3, 2, 3]] if tier == 'quick' else [[2, 3], [3, 2, 3], [2, 2, 2, 2], [4, 3]])
           for r0 in (1, 2) for dr in ((0, 0), (1, 1)) for first in (0, 1, 2)]
     yield Stratum('warm cache: second run on the cache of a first run, every budget', wm, 'warm', size=len(wm), chunk=1, bounds={'first run sweeps': [0, 1, 2], 'second run sweeps': 2})
+    hg = [dict(shape=[40] * 12, r0=1), dict(shape=[10] * 19, r0=2), dict(shape=[8] * 22, r0=1), dict(shape=[40, 40, 40], r0=11), dict(shape=[70, 70], r0=60)]
+    yield Stratum('tensors beyond 2^63 elements; requests of several thousand rows', hg, 'huge', size=len(hg), chunk=1, bounds={'elements': 'up to 40^12', 'rows per request': 'up to 4840'})
     if tier == 'thorough':
         p = [dict(c, pairs=True, N=2) for c in _configs('quick', seed)]
         yield Stratum('deviation<=2', p, 'config', size=len(p), chunk=1,
